@@ -333,7 +333,7 @@ pub fn judge_c26(sc: &Scenario) -> (Judged, RunResult) {
                                         it.inject(op);
                                     }
                                     if matches!(s.mode, Mode::FuncEntry | Mode::FuncExit) {
-                                        it.module.functions.unwrap_local(func_idx).instr_flag.finish_instr();
+                                        it.finish_instr();
                                     }
                                 }
                             }
@@ -401,7 +401,7 @@ pub fn judge_c26(sc: &Scenario) -> (Judged, RunResult) {
                                 it.inject(op);
                             }
                             if matches!(s.mode, Mode::FuncEntry | Mode::FuncExit) {
-                                it.comp.modules[*mod_idx as usize].functions.unwrap_local(func_idx).instr_flag.finish_instr();
+                                it.finish_instr();
                             }
                         }
                     }
